@@ -2,6 +2,7 @@ import GqlVerif.Props.C05
 import GqlVerif.Proofs.C05Body
 import GqlVerif.Proofs.ComposedC05
 import GqlVerif.Proofs.C05BodyModel
+import GqlVerif.Proofs.C05StrLit
 open GqlVerif.C05
 #print axioms module_shape
 #print axioms module_constants
@@ -41,3 +42,33 @@ open GqlVerif.C05
 #print axioms GqlVerif.C05BodyModel.wire_body_of_generate
 #print axioms GqlVerif.C05BodyModel.buildQuery_needs_consts
 #print axioms GqlVerif.C05BodyModel.buildQuery_needs_member
+-- the QUERY constant through string-literal escaping and rustc's lexer (Model/StrLit.lean, Proofs/C05StrLit.lean, P40)
+#print axioms GqlVerif.C05L.unescape_escapeWith
+#print axioms GqlVerif.C05L.isEscapeOf_escapeWith
+#print axioms GqlVerif.C05L.unescape_of_isEscapeOf
+#print axioms GqlVerif.C05L.litValue_string_token
+#print axioms GqlVerif.C05L.litValue_stringToken
+#print axioms GqlVerif.C05L.isEscapeOf_escapeRustcWith
+#print axioms GqlVerif.C05L.unescape_escapeRustcWith
+#print axioms GqlVerif.C05L.litValue_stringTokenRustc
+#print axioms GqlVerif.C05L.run_append_of_isEscapeOf
+#print axioms GqlVerif.C05L.bare_cr_rejected
+#print axioms GqlVerif.C05L.check_ok_iff
+#print axioms GqlVerif.C05L.check_stringToken
+#print axioms GqlVerif.C05L.check_stringTokenRustc
+#print axioms GqlVerif.C05L.query_constant_roundtrip
+#print axioms GqlVerif.C05L.query_constant_roundtrip_rustc
+#print axioms GqlVerif.C05L.demo_token
+#print axioms GqlVerif.C05L.demo_token_rustc
+#print axioms GqlVerif.C05L.demo_unescape
+#print axioms GqlVerif.C05L.demo_isEscapeOf
+#print axioms GqlVerif.C05L.demo_litValue
+#print axioms GqlVerif.C05L.demo_check
+#print axioms GqlVerif.C05L.demo_litValue_rustc
+#print axioms GqlVerif.C05L.demo_litValue_noTables
+#print axioms GqlVerif.C05L.demo_litValue_allTables
+#print axioms GqlVerif.C05L.other_spellings
+#print axioms GqlVerif.C05L.rejected_literals
+#print axioms GqlVerif.C05L.continuation_and_crlf
+#print axioms GqlVerif.C05L.nul_before_digit
+#print axioms GqlVerif.C05L.bare_cr_witness
